@@ -251,6 +251,7 @@ class Contract:
 def contract(file, qualname, props=(), name=None):
     def deco(f):
         c = Contract(file, qualname, props, name)
+        c.module = getattr(f, "__module__", None)
         f(c)
         REGISTRY[(file, qualname, c.name)] = c
         BY_NAME.setdefault(c.name, c)
